@@ -4,6 +4,7 @@ import ast
 import enum
 import re
 import sys
+import unicodedata
 from collections.abc import Callable
 from typing import TYPE_CHECKING, Any, ClassVar, Literal, NoReturn, TypeVar, cast
 
@@ -373,10 +374,26 @@ class Parser:
 
     def parse(self, rule: str, call_invalid_rules: bool = False) -> ast.AST | Any | None:
         try:
-            return self._utf8_columns(self._parse(rule, call_invalid_rules))
+            return self._utf8_columns(self._python_identifiers(self._parse(rule, call_invalid_rules)))
         except RecursionError:
             # the recursive-descent methods ran out of stack: report it like any other unparsable input
             self.raise_syntax_error("too many nested parentheses or expressions")
+
+    def _python_identifiers(self, tree: Any) -> Any:
+        """Like CPython, spell every identifier of the tree in NFKC form (text taken verbatim, such as the words of a
+        subprocess, macro arguments and ``$NAME`` keys, lives in string constants and stays as written)."""
+        if not isinstance(tree, ast.AST):
+            return tree
+        for node in ast.walk(tree):
+            if isinstance(node, ast.Constant):
+                continue
+            for field, value in node.__dict__.items():
+                if type(value) is str:
+                    if not value.isascii() and field != "type_comment":
+                        setattr(node, field, unicodedata.normalize("NFKC", value))
+                elif field in ("names", "kwd_attrs") and type(value) is list:  # global / nonlocal names, class-pattern keywords
+                    value[:] = [v if type(v) is not str or v.isascii() else unicodedata.normalize("NFKC", v) for v in value]
+        return tree
 
     def _utf8_columns(self, tree: Any) -> Any:
         """Token columns count characters; like CPython, AST columns count UTF-8 bytes."""
